@@ -46,6 +46,7 @@ Probes ==
     mail_ret        |-> IF cfg.dsn THEN 250 ELSE 504,
     mail_envid      |-> IF cfg.dsn THEN 250 ELSE 504,
     mail_size_ok    |-> 250,
+    mail_size_exact |-> 250,      \* the advertised value itself is a size the server takes
     mail_size_over  |-> IF cfg.maxBytes > 0 THEN 552 ELSE 250,
     rcpt_notify     |-> IF cfg.dsn THEN 250 ELSE 504,
     rcpt_orcpt      |-> IF cfg.dsn THEN 250 ELSE 504,
@@ -70,6 +71,7 @@ Honoured ==
   /\ ("STARTTLS" \in Caps) = (Probes.starttls = 220)
   /\ ("AUTH PLAIN" \in Caps) = (Probes.auth = 235)
   /\ ("SIZE N" \in Caps) = (Probes.mail_size_over = 552)
+  /\ Probes.mail_size_exact = 250
   /\ ("LIMITS RCPTMAX=N" \in Caps) = (Probes.rcpt_beyond_max = 452)
   /\ "CHUNKING" \in Caps /\ Probes.bdat = 250
   /\ "8BITMIME" \in Caps /\ Probes.mail_8bitmime = 250
